@@ -1499,41 +1499,74 @@ obligations even when no sampled input or schedule shows a difference; the check
 a failing input. -/
 theorem c12_shape_Roster_GenerateBigNaryTree :
     Shapes.tree_Roster_GenerateBigNaryTree =
-   ["if:(len(ro.List)==0)", "NewTreeNode", "if:(children>N)", "Address.Host", "Address.Host",
-     "if:(useAll&&used[])", "if:(roIndex==roIndexFirst)", "if:(roIndex==roIndexFirst)",
-     "Address.Host", "NewTreeNode", "return:NewTree(ro,root)"] := rfl
+   ["if:(len(ro.List)==0)", "assign:used:=make(conv,len(ro.List))", "assign:ilLen:=len(ro.List)",
+     "assign:useAll:=(ilLen==nodes)", "NewTreeNode", "assign:root:=NewTreeNode(0,ro.List[0])",
+     "assign:used[0]=true", "assign:levelNodes:=conv{root}", "assign:totalNodes:=1",
+     "assign:roIndex:=(1%ilLen)", "for:(totalNodes<nodes){",
+     "assign:newLevelNodes:=make(conv,(len(levelNodes)*N))", "assign:newLevelNodesCounter:=0",
+     "range:i,parent:=levelNodes{",
+     "assign:children:=(((nodes-totalNodes)*(i+1))/len(levelNodes))", "if:(children>N)",
+     "assign:children=N", "assign:parent.Children=make(conv,children)", "Address.Host",
+     "assign:parentHost:=parent.ServerIdentity.Address.Host()", "assign:n:=0",
+     "for:(n<children){", "Address.Host", "assign:childHost:=ro.List[].Address.Host()",
+     "assign:roIndexFirst:=roIndex", "assign:notSameHost:=true",
+     "for:(((notSameHost&&(childHost==parentHost))&&(ilLen>1))||(useAll&&used[roIndex])){",
+     "assign:roIndex=((roIndex+1)%ilLen)", "if:(useAll&&used[roIndex])",
+     "if:(roIndex==roIndexFirst)", "assign:notSameHost=false", "continue",
+     "if:(roIndex==roIndexFirst)", "break", "Address.Host",
+     "assign:childHost=ro.List[].Address.Host()", "}", "NewTreeNode",
+     "assign:child:=NewTreeNode(roIndex,ro.List[roIndex])", "assign:used[roIndex]=true",
+     "assign:roIndex=((roIndex+1)%ilLen)", "assign:totalNodes++",
+     "assign:parent.Children[n]=child", "assign:child.Parent=parent",
+     "assign:newLevelNodes[newLevelNodesCounter]=child", "assign:newLevelNodesCounter++",
+     "assign:n++", "}", "}", "assign:levelNodes=newLevelNodes[:newLevelNodesCounter]", "}",
+     "return:NewTree(ro,root)"] := rfl
 
 theorem c12_shape_Roster_GenerateNaryTreeWithRoot :
     Shapes.tree_Roster_GenerateNaryTreeWithRoot =
-   ["if:(root!=nil)", "ro.Search", "if:(rootIndex<0)", "return:nil", "else", "NewTreeNode",
-     "if:(parents[].SubtreeCount()==N)", "if:(len(parents)==0)", "NewTreeNode",
-     "parents[].AddChild", "return:NewTree(ro,rootNode)"] := rfl
+   ["assign:rootIndex:=0", "if:(root!=nil)", "ro.Search",
+     "assign:rootIndex,_=ro.Search(root.ID)", "if:(rootIndex<0)", "return:nil", "else",
+     "assign:root=ro.List[0]", "NewTreeNode", "assign:rootNode:=NewTreeNode(rootIndex,root)",
+     "assign:parents:=conv{rootNode}", "assign:children:=conv{}", "assign:i:=1",
+     "for:(i<len(ro.List)){", "assign:index:=((i+rootIndex)%len(ro.List))",
+     "if:(parents[].SubtreeCount()==N)", "assign:parents=parents[1:]", "if:(len(parents)==0)",
+     "assign:parents=children", "assign:children=conv{}", "NewTreeNode",
+     "assign:newChild:=NewTreeNode(index,ro.List[index])",
+     "assign:children=append(children,newChild)", "parents[].AddChild", "assign:i++", "}",
+     "return:NewTree(ro,rootNode)"] := rfl
 
 theorem c12_shape_Roster_GenerateNaryTree :
     Shapes.tree_Roster_GenerateNaryTree =
-   ["ro.GenerateNaryTreeWithRoot"] := rfl
+   ["return:ro.GenerateNaryTreeWithRoot(N,nil)"] := rfl
 
 theorem c12_shape_Roster_GenerateBinaryTree :
     Shapes.tree_Roster_GenerateBinaryTree =
-   ["ro.GenerateNaryTree"] := rfl
+   ["return:ro.GenerateNaryTree(2)"] := rfl
 
 theorem c12_shape_Roster_GenerateStar :
     Shapes.tree_Roster_GenerateStar =
-   ["ro.GenerateNaryTree"] := rfl
+   ["return:ro.GenerateNaryTree((len(ro.List)-1))"] := rfl
 
 theorem c12_shape_NewTreeNode :
     Shapes.tree_NewTreeNode =
-   ["Public.String", "uuid.NewSHA1", "TreeNodeID"] := rfl
+   ["Public.String", "uuid.NewSHA1", "TreeNodeID",
+     "assign:tn:=&TreeNode{ServerIdentity:ni,RosterIndex:entityIdx,Parent:nil,Children:make(conv,0),ID:TreeNodeID(uuid.NewSHA1(uuid.NameSpaceURL,conv(ni.Public.String())))}",
+     "return:tn"] := rfl
 
 theorem c12_shape_LocalTest_GenTree :
     Shapes.local_LocalTest_GenTree =
-   ["l.panicClosed", "l.GenServers", "l.GenRosterFromHost", "list.GenerateBinaryTree",
-     "overlay.RegisterTree"] := rfl
+   ["l.panicClosed", "l.GenServers", "assign:servers:=l.GenServers(n)", "l.GenRosterFromHost",
+     "assign:list:=l.GenRosterFromHost(servers)", "list.GenerateBinaryTree",
+     "assign:tree:=list.GenerateBinaryTree()", "assign:l.Trees[tree.ID]=tree", "if:register",
+     "overlay.RegisterTree", "return:servers,list,tree"] := rfl
 
 theorem c12_shape_LocalTest_GenBigTree :
     Shapes.local_LocalTest_GenBigTree =
-   ["l.panicClosed", "l.GenServers", "l.GenRosterFromHost", "list.GenerateBigNaryTree",
-     "if:register", "overlay.RegisterTree", "return:servers,list,tree"] := rfl
+   ["l.panicClosed", "l.GenServers", "assign:servers:=l.GenServers(nbrServers)",
+     "l.GenRosterFromHost", "assign:list:=l.GenRosterFromHost(servers)",
+     "list.GenerateBigNaryTree", "assign:tree:=list.GenerateBigNaryTree(bf,nbrTreeNodes)",
+     "assign:l.Trees[tree.ID]=tree", "if:register", "overlay.RegisterTree",
+     "return:servers,list,tree"] := rfl
 
 theorem c12_shape_LocalTest_GenRosterFromHost :
     Shapes.local_LocalTest_GenRosterFromHost =
@@ -1541,12 +1574,21 @@ theorem c12_shape_LocalTest_GenRosterFromHost :
 
 theorem c12_shape_SimulationBFTree_CreateTree :
     Shapes.simulation_SimulationBFTree_CreateTree =
-   ["time.Now", "if:(sc.Roster==nil)", "return:xerrors.New(\"\")", "Roster.GenerateBigNaryTree",
+   ["time.Now", "assign:start:=time.Now()", "if:(sc.Roster==nil)", "return:xerrors.New(\"\")",
+     "Roster.GenerateBigNaryTree", "assign:sc.Tree=sc.Roster.GenerateBigNaryTree(s.BF,s.Hosts)",
      "return:nil"] := rfl
 
 theorem c12_shape_Roster_Search :
     Shapes.tree_Roster_Search =
-   ["if:e.ID.Equal(eID)", "return:i,e", "return:-1,nil"] := rfl
+   ["range:i,e:=ro.List{", "if:e.ID.Equal(eID)", "return:i,e", "}", "return:-1,nil"] := rfl
+
+theorem c12_shape_TreeNode_AddChild :
+    Shapes.tree_TreeNode_AddChild =
+   ["assign:t.Children=append(t.Children,c)", "assign:c.Parent=t"] := rfl
+
+theorem c12_shape_TreeNode_SubtreeCount :
+    Shapes.tree_TreeNode_SubtreeCount =
+   ["assign:ret:=-1", "assign:ret++", "t.Visit", "return:ret"] := rfl
 
 
 end C12
